@@ -341,7 +341,9 @@ class DictReader:
                     content = section[attr]
                     if attr.endswith("_cardinality"):
                         content = parse_cardinality(content)
-                    elif attr == "name" and content is not None and not isinstance(content, str):
+                    elif attr in ("name", "type") and content is not None and \
+                            not isinstance(content, str):
+                        # Name and type are compared and looked up as text.
                         content = str(content)
 
                     # Make sure to always use the correct odml format attribute name
@@ -396,7 +398,9 @@ class DictReader:
                     # Now convert cardinality lists back to tuples.
                     if attr.endswith("_cardinality"):
                         content = parse_cardinality(content)
-                    elif attr == "name" and content is not None and not isinstance(content, str):
+                    elif attr in ("name", "dependency") and content is not None and \
+                            not isinstance(content, str):
+                        # Name and dependency are compared and looked up as text.
                         content = str(content)
 
                     # Make sure to always use the correct odml format attribute name
